@@ -786,6 +786,24 @@ fn check_tour(t: &Tour, m: &TourModel, al: &Alphabet) -> Result<(), Fail> {
             return fail("job-activities-mismatch", format!("job_activities({}) yields too many", al.job_names[k]));
         }
     }
+    // a task of a multi job wrapped as a job of its own is a different job: the tour does not contain it
+    for sub in al.subs.iter().filter(|sub| al.is_multi(sub.job)) {
+        let foreign = Job::Single(sub.single.clone());
+        if t.has_job(&foreign) || t.contains(&foreign) || t.index(&foreign).is_some() || t.index_last(&foreign).is_some() || t.job_activities(&foreign).next().is_some() {
+            return fail(
+                "foreign-job-found",
+                format!(
+                    "task of {} wrapped as a single job: has_job={} contains={} index={:?} index_last={:?} job_activities non-empty={}",
+                    al.job_names[sub.job],
+                    t.has_job(&foreign),
+                    t.contains(&foreign),
+                    t.index(&foreign),
+                    t.index_last(&foreign),
+                    t.job_activities(&foreign).next().is_some()
+                ),
+            );
+        }
+    }
     for (i, a) in acts.iter().enumerate() {
         match t.get(i) {
             Some(g) if std::ptr::eq(g, *a) => {}
@@ -1030,6 +1048,16 @@ impl<'a> TourRunner<'a> {
                 Ok(None)
             }
             TOp::Remove { job } => {
+                // first the same request addressed with a task of a multi job wrapped as a job of its own: such a job is not
+                // in the tour (the tour holds the multi job), nothing may be removed (the model is not touched; the
+                // comparison after the step sees any change)
+                for sub in al.subs.iter().filter(|sub| al.is_multi(sub.job)) {
+                    let foreign = Job::Single(sub.single.clone());
+                    cx.obs("tour_ops", "remove:task-of-a-multi-job-wrapped-as-job");
+                    if main.tour_mut().remove(&foreign) {
+                        return fail("remove-return-mismatch", format!("remove(task of {} wrapped as a single job) returned true", al.job_names[sub.job]));
+                    }
+                }
                 let got = main.tour_mut().remove(&al.jobs[job]);
                 match expected {
                     Expected::Bool(exp) if exp != got => {
